@@ -2,7 +2,7 @@
 import ast
 import re
 
-from sa.astutil import (norm, guards_of, walk_no_nested, always_exits, parent, enclosing, stmt_of,
+from sa.astutil import (guard_atoms, norm, guards_of, walk_no_nested, always_exits, parent, enclosing, stmt_of,
                         preceding_stmts, body_walk, qualname)
 from sa.errors import AnalysisError
 from sa.minieval import Evaluator, Obj
@@ -1059,8 +1059,8 @@ def rule_methods(repo):
         for c in adds:
             a, b = [norm(e) for e in c.args[0].elts]
             ok = (b == 'blk' and a in ('v', 'vb')) if d == 'pred' else (a == 'blk' and b in ('v', 'vb'))
-            gs = [norm(g.test) for g in guards_of(c) if g.kind == 'if' and any(x is g.node for x in ast.walk(lp))]
-            ok = ok and any(t in (f"{a} != {b}", f"{b} != {a}") for t in gs)
+            gs = {t for t, pol in guard_atoms(c, stop=lp) if pol} | {f"not ({t})" for t, pol in guard_atoms(c, stop=lp) if not pol}
+            ok = ok and any(t in (f"{a} != {b}", f"{b} != {a}", f"not ({a} == {b})", f"not ({b} == {a})") for t in gs)
             (r.ok if ok else r.bad)(m, FN, f"{d}: all_constraints.add(({a}, {b}))",
                                     *([] if ok else [f"a constraint found through a {'predecessor' if d == 'pred' else 'successor'} method must be "
                                                      f"{'(other, blk)' if d == 'pred' else '(blk, other)'} and exclude self pairs", c.lineno]))
